@@ -1549,7 +1549,36 @@ class _Ev:
         return [(st, ast.Constant(value='<fstr>'), None)]
 
     def e_Lambda(self, e, st):
-        return [(st, e, None)]
+        # a free variable of the lambda that is a local of the enclosing function, bound exactly once there, is a
+        # captured *value*: the lambda reads the same whatever the local is called (`origin = env.now; lambda: origin`).
+        # The value is wrapped (`@captured(..)`), so that it stays different from the same expression written in the
+        # lambda itself, which is evaluated when the lambda is called (`lambda: env.now`)
+        bound = {a.arg for a in e.args.posonlyargs + e.args.args + e.args.kwonlyargs}
+        if e.args.vararg:
+            bound.add(e.args.vararg.arg)
+        if e.args.kwarg:
+            bound.add(e.args.kwarg.arg)
+        free = {n.id for n in ast.walk(e.body) if isinstance(n, ast.Name) and isinstance(n.ctx, ast.Load)} - bound
+        fn = self.fctx.node
+        params = {a.arg for a in fn.args.posonlyargs + fn.args.args + fn.args.kwonlyargs}
+        caps = {}
+        for nm in free:
+            if nm in params or nm not in st.locals:
+                continue
+            stores = [n for n in ast.walk(fn) if isinstance(n, ast.Name) and n.id == nm and isinstance(n.ctx, ast.Store)]
+            if len(stores) == 1:
+                caps[nm] = st.locals[nm]
+        if not caps:
+            return [(st, e, None)]
+
+        class _Cap(ast.NodeTransformer):
+            def visit_Name(self_, n):
+                if isinstance(n.ctx, ast.Load) and n.id in caps:
+                    return ast.copy_location(ast.Call(func=ast.Name(id='@captured', ctx=ast.Load()), args=[copy.deepcopy(caps[n.id])], keywords=[]), n)
+                return n
+        e2 = copy.deepcopy(e)
+        e2.body = _Cap().visit(e2.body)
+        return [(st, e2, None)]
 
     def e_NamedExpr(self, e, st):
         res = []
